@@ -47,6 +47,7 @@ class Obligation:
     props: Optional[List[str]] = None  # None = all properties of the rule
     witness: str = ""
     info: bool = False  # informational only (never a violation)
+    signature: Optional[str] = None  # what exactly fails (name-free); a parked finding with a signature covers only that
 
     @property
     def key(self) -> str:
@@ -135,9 +136,10 @@ class Ctx:
         witness: str = "",
         rule: Optional[str] = None,
         info: bool = False,
+        signature: Optional[str] = None,
     ) -> Obligation:
         rid = rule or self._current.rid
-        o = Obligation(rid, construct, bool(ok), message, file, line, facts, props, witness, info)
+        o = Obligation(rid, construct, bool(ok), message, file, line, facts, props, witness, info, signature)
         self.obligations.setdefault(rid, []).append(o)
         return o
 
@@ -217,9 +219,11 @@ def evaluate_property(ctx: Ctx, prop: str):
     known_hit = []
     for f in findings:
         k = known.get(f.key)
-        if k is not None and prop in k.get("properties", []):
+        if k is not None and prop in k.get("properties", []) and (k.get("signature") is None or k.get("signature") == f.signature):
             known_hit.append(f)
         else:
+            if k is not None and k.get("signature") is not None and k.get("signature") != f.signature:
+                f.message += f" [the parked finding for this construct is `{k.get('signature')}`; what fails now is `{f.signature}`]"
             new.append(f)
     return rids, obligations, errors, new, known_hit
 
